@@ -2137,8 +2137,11 @@ class Parameters:
         for pname, p in objects.items():
             if p.instantiate and pname != "name":
                 params_to_deepcopy[pname] = p
-            elif (p.constant or id(p) in _unlocked_constants) and pname != 'name':
-                # (also a constant temporarily unlocked by edit_constant)
+            elif (p.constant or id(p) in _unlocked_constants) and (
+                    pname != 'name' or 'name' not in self._param__private.values):
+                # (also a constant temporarily unlocked by edit_constant;
+                # `name` only when no per-instance name was generated
+                # because a class gave it a default of its own)
                 params_to_ref[pname] = p
 
         for p in params_to_deepcopy.values():
